@@ -1,0 +1,118 @@
+//go:build verif
+
+package container
+
+// Interface-level contracts of the three-level singleton cache (property C04) and of the creation callbacks.
+//
+// Model fields of a SingletonComponentRegistry:
+//   L1Dom/L1  published singletons            L2Dom/L2  early references
+//   L3Dom/L3  pending early-reference factories   IC    names currently in creation
+//   EarlyRuns / Creates  ghost counters: how often the early-reference factory / the creating factory of a name ran
+//   RepInv    the representation invariant of the implementation (opaque at this level)
+
+//@ ghost field (SingletonComponentRegistry) RepInv bool
+//@ ghost field (SingletonComponentRegistry) L1Dom map[string]bool
+//@ ghost field (SingletonComponentRegistry) L1 map[string]*component_definition.Meta
+//@ ghost field (SingletonComponentRegistry) L2Dom map[string]bool
+//@ ghost field (SingletonComponentRegistry) L2 map[string]*component_definition.Meta
+//@ ghost field (SingletonComponentRegistry) L3Dom map[string]bool
+//@ ghost field (SingletonComponentRegistry) L3 map[string]SingletonFactory
+//@ ghost field (SingletonComponentRegistry) IC map[string]bool
+//@ ghost field (SingletonComponentRegistry) EarlyRuns map[string]int
+//@ ghost field (SingletonComponentRegistry) Creates map[string]int
+
+// Ghost attributes of a factory callback: which protocol role it plays, for which name, on which registry.
+//@ ghost field (SingletonFactory) Role int
+//@ ghost field (SingletonFactory) ForName string
+//@ ghost field (SingletonFactory) Reg SingletonComponentRegistry
+
+//@ spec func RoleCreator() int = 1
+//@ spec func RoleEarlyRef() int = 2
+
+// J3: a name in creation is not published.  JF: every pending factory is a well-formed early-reference factory
+// for its own name on this registry.
+//@ spec func RegInv(r SingletonComponentRegistry) bool = r != nil && r.RepInv && forall(n, string, implies(r.IC[n], !r.L1Dom[n]), r.IC[n]) && forall(n, string, implies(r.L3Dom[n], r.L3[n] != nil && r.L3[n].Role == RoleEarlyRef() && r.L3[n].ForName == n && r.L3[n].Reg == r), r.L3Dom[n])
+
+// Two-state rely: what every registry operation and every creating callback guarantees to the frames above it.
+// R1 published entries are immutable; R2 an early reference is replaced only by publication;
+// R4 names that were in creation stay in creation, unpublished, and keep an answer (L2 or L3) if they had one.
+//@ spec func RegRely(r SingletonComponentRegistry) bool = forall(n, string, implies(old(r.L1Dom[n]), r.L1Dom[n] && r.L1[n] == old(r.L1[n])), r.L1Dom[n]) && forall(n, string, implies(old(r.L2Dom[n]), (r.L2Dom[n] && r.L2[n] == old(r.L2[n])) || r.L1Dom[n]), r.L2Dom[n]) && forall(n, string, implies(old(r.IC[n]), r.IC[n] && !r.L1Dom[n] && implies(old(r.L2Dom[n]) || old(r.L3Dom[n]), r.L2Dom[n] || r.L3Dom[n])), r.IC[n])
+
+//@ spec func CachesUnchanged(r SingletonComponentRegistry) bool = r.L1Dom == old(r.L1Dom) && r.L1 == old(r.L1) && r.L2Dom == old(r.L2Dom) && r.L2 == old(r.L2) && r.L3Dom == old(r.L3Dom) && r.L3 == old(r.L3) && r.IC == old(r.IC)
+
+// ---- creation callbacks -------------------------------------------------------------------------------
+
+//@ method (SingletonFactory).GetComponent
+//@ property C04
+//@ requires [cb-inv] RegInv(self.Reg)
+//@ requires [factory-sees-mark] implies(self.Role == RoleCreator(), self.Reg.IC[self.ForName])
+//@ assigns self.Reg.L1Dom, self.Reg.L1, self.Reg.L2Dom, self.Reg.L2, self.Reg.L3Dom, self.Reg.L3, self.Reg.IC, self.Reg.EarlyRuns, self.Reg.Creates
+//@ ensures [cb-inv-kept] RegInv(self.Reg)
+//@ ensures [cb-rely] RegRely(self.Reg)
+//@ ensures [cb-result] implies(result1 == nil, result0 != nil)
+//@ ensures [cb-earlyref-frame] implies(self.Role == RoleEarlyRef(), CachesUnchanged(self.Reg) && self.Reg.Creates == old(self.Reg.Creates) && self.Reg.EarlyRuns == store(old(self.Reg.EarlyRuns), self.ForName, old(self.Reg.EarlyRuns[self.ForName]) + 1))
+//@ ensures [cb-creator-counts] implies(self.Role == RoleCreator(), self.Reg.Creates[self.ForName] == old(self.Reg.Creates[self.ForName]) + 1)
+//@ ensures [cb-creator-marks] implies(self.Role == RoleCreator(), self.Reg.IC == old(self.Reg.IC))
+
+//@ method (SingletonComponentRegistry).GetSingleton
+//@ property C04
+//@ requires [inv] RegInv(self)
+//@ assigns self.L1Dom, self.L1, self.L2Dom, self.L2, self.L3Dom, self.L3, self.IC, self.EarlyRuns, self.Creates
+//@ ensures [inv-kept] RegInv(self)
+//@ ensures [rely] RegRely(self)
+//@ ensures [published-wins] implies(old(self.L1Dom[name]), result0 == old(self.L1[name]) && result1 == nil)
+//@ ensures [early-stable] implies(!old(self.L1Dom[name]) && old(self.L2Dom[name]), result0 == old(self.L2[name]) && result1 == nil)
+//@ ensures [promote-once] implies(!old(self.L1Dom[name]) && !old(self.L2Dom[name]) && allowEarlyReference && old(self.L3Dom[name]) && result1 == nil, result0 != nil && self.L2Dom == store(old(self.L2Dom), name, true) && self.L2 == store(old(self.L2), name, result0) && self.L3Dom == store(old(self.L3Dom), name, false) && self.EarlyRuns == store(old(self.EarlyRuns), name, old(self.EarlyRuns[name]) + 1))
+//@ ensures [no-run-otherwise] implies(old(self.L1Dom[name]) || old(self.L2Dom[name]) || !allowEarlyReference || !old(self.L3Dom[name]), CachesUnchanged(self) && self.EarlyRuns == old(self.EarlyRuns))
+//@ ensures [disallowed-means-nil] implies(!allowEarlyReference && !old(self.L1Dom[name]) && !old(self.L2Dom[name]), result0 == nil && result1 == nil)
+//@ ensures [miss-means-nil] implies(!old(self.L1Dom[name]) && !old(self.L2Dom[name]) && !old(self.L3Dom[name]), result0 == nil && result1 == nil)
+//@ ensures [never-creates] self.Creates == old(self.Creates) && self.L1Dom == old(self.L1Dom) && self.L1 == old(self.L1) && self.IC == old(self.IC) && self.L3 == old(self.L3)
+//@ ensures [failed-early-ref] implies(result1 != nil, result0 == nil && CachesUnchanged(self))
+
+//@ method (SingletonComponentRegistry).GetSingletonOrCreateByFactory
+//@ property C04
+//@ requires [inv] RegInv(self)
+//@ requires [not-creating] !self.IC[name]
+//@ requires [creator] factory != nil && factory.Role == RoleCreator() && factory.ForName == name && factory.Reg == self
+//@ assigns self.L1Dom, self.L1, self.L2Dom, self.L2, self.L3Dom, self.L3, self.IC, self.EarlyRuns, self.Creates
+//@ ensures [inv-kept] RegInv(self)
+//@ ensures [rely] RegRely(self)
+//@ ensures [already-published] implies(old(self.L1Dom[name]), result0 == old(self.L1[name]) && result1 == nil && CachesUnchanged(self) && self.Creates == old(self.Creates) && self.EarlyRuns == old(self.EarlyRuns))
+//@ ensures [publishes] implies(result1 == nil && !old(self.L1Dom[name]), result0 != nil && self.L1Dom[name] && self.L1[name] == result0 && !self.L2Dom[name] && !self.L3Dom[name])
+//@ ensures [ic-restored] self.IC == old(self.IC)
+//@ ensures [publishes-once] implies(!old(self.L1Dom[name]), self.Creates[name] == old(self.Creates[name]) + 1)
+//@ ensures [failed-create-leaves-nothing] implies(result1 != nil && !old(self.L1Dom[name]), !self.IC[name] && !self.L1Dom[name] && !self.L2Dom[name] && !self.L3Dom[name])
+//@ ensures [error-means-nil] implies(result1 != nil, result0 == nil)
+
+//@ method (SingletonComponentRegistry).AddSingleton
+//@ property C04
+//@ requires [inv] RegInv(self)
+//@ requires [publish-after-unmark] !self.IC[name]
+//@ requires [publish-once] !self.L1Dom[name]
+//@ assigns self.L1Dom, self.L1, self.L2Dom, self.L3Dom
+//@ ensures [inv-kept] RegInv(self)
+//@ ensures [rely] RegRely(self)
+//@ ensures [publishes-whole-view] self.L1Dom == store(old(self.L1Dom), name, true) && self.L1 == store(old(self.L1), name, meta) && self.L2Dom == store(old(self.L2Dom), name, false) && self.L3Dom == store(old(self.L3Dom), name, false)
+
+//@ method (SingletonComponentRegistry).AddSingletonFactory
+//@ property C04
+//@ requires [inv] RegInv(self)
+//@ requires [early-factory] method != nil && method.Role == RoleEarlyRef() && method.ForName == name && method.Reg == self
+//@ requires [not-answered-yet] !self.L1Dom[name] && !self.L2Dom[name]
+//@ assigns self.L3Dom, self.L3
+//@ ensures [inv-kept] RegInv(self)
+//@ ensures [rely] RegRely(self)
+//@ ensures [adds-whole-view] self.L3Dom == store(old(self.L3Dom), name, true) && self.L3 == store(old(self.L3), name, method)
+
+//@ method (SingletonComponentRegistry).RemoveSingleton
+//@ property C04
+//@ requires [inv] RegInv(self)
+//@ assigns self.L1Dom, self.L2Dom, self.L3Dom, self.IC
+//@ ensures [inv-kept] RegInv(self)
+//@ ensures [removes-whole-view] self.L1Dom == store(old(self.L1Dom), name, false) && self.L2Dom == store(old(self.L2Dom), name, false) && self.L3Dom == store(old(self.L3Dom), name, false) && self.IC == store(old(self.IC), name, false)
+
+//@ method (SingletonComponentRegistry).IsSingletonCurrentlyInCreation
+//@ property C04
+//@ requires [inv] RegInv(self)
+//@ assigns nothing
+//@ ensures [reports-mark] result == self.IC[name]
